@@ -66,12 +66,23 @@ def engine_digest():
     return h.hexdigest()
 
 
-def prune_cache(keep=400):
+def prune_cache(keep=400, min_age_s=6 * 3600):
+    """Drops the least recently used cache entries beyond `keep`, but never one used in the last hours: another
+    check (or a long thorough run) may still be executing that binary."""
     files = [os.path.join(OBJ, f) for f in os.listdir(OBJ)] if os.path.isdir(OBJ) else []
     if len(files) <= keep:
         return
-    files.sort(key=lambda p: os.path.getmtime(p))
+    now = time.time()
+
+    def mt(p):
+        try:
+            return os.path.getmtime(p)
+        except OSError:
+            return now
+    files.sort(key=mt)
     for p in files[:len(files) - keep]:
+        if now - mt(p) < min_age_s:
+            break
         try:
             os.unlink(p)
         except OSError:
